@@ -2330,6 +2330,12 @@ func (e *CoreExtension) functionParent(args ...interface{}) (interface{}, error)
 		cleanCtx := NewRenderContext(ctx.env, ctx.context, ctx.engine)
 		cleanCtx.sandboxed = ctx.sandboxed // parent() content stays inside the sandbox
 		cleanCtx.lastLoadedTemplate = ctx.lastLoadedTemplate
+		if parentDepth < len(ctx.currentOrigins) && ctx.currentOrigins[parentDepth] != nil {
+			// The parent definition resolves relative names against the template it was written in
+			cleanCtx.lastLoadedTemplate = ctx.currentOrigins[parentDepth]
+		}
+		cleanCtx.currentOrigins = ctx.currentOrigins
+		cleanCtx.blockOrigins = copyBlockOrigins(ctx.blockOrigins)
 		defer cleanCtx.Release()
 
 		// Copy all blocks and variables
